@@ -89,3 +89,151 @@ Proof.
   destruct doc; cbn [decode_typed_data_ptr]; try discriminate;
     (apply bind_np; [apply decode_typed_data_total|discriminate]).
 Qed.
+
+(* ---------- the decoded maps have unique keys (they stand for Go maps) ---------- *)
+Definition akeys {V} (m : list (bytes * V)) : list bytes := map fst m.
+
+Lemma aset_keys {V} k (v : V) m :
+  akeys (aset k v m) = if existsb (bytes_eqb k) (akeys m) then akeys m else akeys m ++ [k].
+Proof.
+  induction m as [|[k' v'] m IH]; [reflexivity|]. cbn [aset akeys map fst existsb].
+  destruct (bytes_eqb_spec k k') as [->|Hne]; cbn [orb map fst].
+  - reflexivity.
+  - fold (akeys m). fold (akeys (aset k v m)). rewrite IH. destruct (existsb (bytes_eqb k) (akeys m)); reflexivity.
+Qed.
+
+Lemma existsb_bytes_in k l : existsb (bytes_eqb k) l = false -> ~ In k l.
+Proof.
+  intros Hf Hin. assert (existsb (bytes_eqb k) l = true); [|congruence].
+  apply existsb_exists. exists k. split; [exact Hin|]. destruct (bytes_eqb_spec k k); congruence.
+Qed.
+
+Lemma nodup_snoc (k : bytes) l : NoDup l -> ~ In k l -> NoDup (l ++ [k]).
+Proof.
+  induction l as [|x l IH]; intros Hn Hk; simpl; [repeat constructor; intros []|].
+  inversion Hn as [|? ? Hx Hl]; subst. constructor.
+  - rewrite in_app_iff. intros [Hi|[<-|[]]]; [exact (Hx Hi)|apply Hk; left; reflexivity].
+  - apply IH; [exact Hl|]. intros Hi. apply Hk. right. exact Hi.
+Qed.
+
+Lemma aset_nodup {V} k (v : V) m : NoDup (akeys m) -> NoDup (akeys (aset k v m)).
+Proof.
+  intros Hn. rewrite aset_keys. destruct (existsb (bytes_eqb k) (akeys m)) eqn:E; [exact Hn|].
+  apply existsb_bytes_in in E. apply nodup_snoc; assumption.
+Qed.
+
+Lemma fold_aset_nodup {A V} (f : A -> bytes * V) (l : list A) (init : list (bytes * V)) :
+  NoDup (akeys init) -> NoDup (akeys (fold_left (fun acc a => aset (fst (f a)) (snd (f a)) acc) l init)).
+Proof.
+  revert init. induction l as [|a l IH]; intros init Hn; simpl; [exact Hn|]. apply IH, aset_nodup, Hn.
+Qed.
+
+(* every map inside a value has unique keys *)
+Fixpoint wf_gval (v : gval) : Prop :=
+  match v with
+  | GSlice l => (fix all (l : list gval) : Prop := match l with [] => True | x :: r => wf_gval x /\ all r end) l
+  | GMap m => NoDup (akeys m) /\
+              (fix all (m : list (bytes * gval)) : Prop := match m with [] => True | kv :: r => wf_gval (snd kv) /\ all r end) m
+  | _ => True
+  end.
+Definition wf_gmap (m : gmap) : Prop := wf_gval (GMap m).
+
+Lemma wf_gmap_aset k v m : wf_gmap m -> wf_gval v -> wf_gmap (aset k v m).
+Proof.
+  unfold wf_gmap. cbn [wf_gval]. intros [Hn Ha] Hv. split; [apply aset_nodup; exact Hn|].
+  clear Hn. induction m as [|[k' v'] m IH]; cbn [aset].
+  - split; [exact Hv|exact I].
+  - destruct Ha as [Hv' Ha]. destruct (bytes_eqb k k'); cbn [snd].
+    + split; assumption.
+    + split; [exact Hv'|apply IH; exact Ha].
+Qed.
+
+Fixpoint to_gval_wf (j : json) : wf_gval (to_gval j) :=
+  match j return wf_gval (to_gval j) with
+  | JNull => I | JBool _ => I | JNum _ => I | JStr _ => I
+  | JArr l => (fix go (l : list json) : wf_gval (GSlice (map to_gval l)) :=
+                 match l return wf_gval (GSlice (map to_gval l)) with
+                 | [] => I
+                 | x :: r => conj (to_gval_wf x) (go r)
+                 end) l
+  | JObj m =>
+      (fix go (m : list (bytes * json)) (acc : gmap) (Hacc : wf_gmap acc) {struct m}
+         : wf_gmap (fold_left (fun acc kv => aset (fst kv) (to_gval (snd kv)) acc) m acc) :=
+         match m return wf_gmap (fold_left (fun acc kv => aset (fst kv) (to_gval (snd kv)) acc) m acc) with
+         | [] => Hacc
+         | kv :: r => go r (aset (fst kv) (to_gval (snd kv)) acc) (wf_gmap_aset _ _ _ Hacc (to_gval_wf (snd kv)))
+         end) m [] (conj (NoDup_nil _) I)
+  end.
+
+Definition wf_td (td : typed_data) : Prop :=
+  (forall ts, td_types td = Some ts -> NoDup (akeys ts)) /\
+  (forall d, td_domain td = Some d -> wf_gmap d) /\
+  (forall m, td_message td = Some m -> wf_gmap m).
+
+Lemma fold_bind_inv {A B} (P : A -> Prop) (f : A -> B -> res A) (l : list B) :
+  (forall a b a', P a -> f a b = Ok a' -> P a') ->
+  forall init r, (forall a, init = Ok a -> P a) ->
+    fold_left (fun acc b => do a <- acc; f a b) l init = Ok r -> P r.
+Proof.
+  intros Hf. induction l as [|b l IH]; intros init r Hi Hr; simpl in Hr; [apply Hi; exact Hr|].
+  apply (IH _ r) in Hr; [exact Hr|]. intros a Ha. destruct init as [a0| |]; simpl in Ha; try discriminate.
+  apply (Hf a0 b a); [apply Hi; reflexivity|exact Ha].
+Qed.
+
+Lemma dec_typeset_nodup cur j ts :
+  (forall c, cur = Some c -> NoDup (akeys c)) -> dec_typeset cur j = Ok (Some ts) -> NoDup (akeys ts).
+Proof.
+  intros Hc. destruct j; simpl; try discriminate. intros Hr. apply bind_ok in Hr. destruct Hr as [ts' [Hf Hr]].
+  injection Hr as <-.
+  refine (fold_bind_inv (fun t : typeset => NoDup (akeys t))
+            (fun ts (kv : bytes * json) => do t <- dec_type (snd kv); Ok (aset (fst kv) t ts)) m _ _ ts' _ Hf).
+  - intros a b a' Ha Hb. apply bind_ok in Hb. destruct Hb as [t [_ Hb]]. injection Hb as <-. apply aset_nodup, Ha.
+  - intros a Ha. injection Ha as <-. destruct cur as [c|]; [apply Hc; reflexivity|constructor].
+Qed.
+
+Lemma fold_to_gval_wf (m : list (bytes * json)) : forall acc : gmap,
+  wf_gmap acc -> wf_gmap (fold_left (fun acc kv => aset (fst kv) (to_gval (snd kv)) acc) m acc).
+Proof.
+  induction m as [|kv m IH]; intros acc Hacc; simpl; [exact Hacc|].
+  apply IH. apply wf_gmap_aset; [exact Hacc|apply to_gval_wf].
+Qed.
+
+Lemma dec_gmap_wf cur j g :
+  (forall c, cur = Some c -> wf_gmap c) -> dec_gmap cur j = Ok (Some g) -> wf_gmap g.
+Proof.
+  intros Hc. destruct j; simpl; try discriminate. intros Hr. injection Hr as <-.
+  apply fold_to_gval_wf. destruct cur as [c|]; [apply Hc; reflexivity|]. split; [constructor|exact I].
+Qed.
+
+Lemma dec_td_field_wf td kv td' : wf_td td -> dec_td_field td kv = Ok td' -> wf_td td'.
+Proof.
+  intros [Ht [Hd Hm]]. unfold dec_td_field. destruct kv as [k v].
+  destruct (field_is F_TYPES k).
+  { intros Hr. apply bind_ok in Hr. destruct Hr as [x [Hx Hr]]. injection Hr as <-.
+    split; [|split]; cbn [td_types td_domain td_message]; try assumption.
+    intros ts ->. apply (dec_typeset_nodup _ _ _ Ht Hx). }
+  destruct (field_is F_PRIMARYTYPE k).
+  { intros Hr. apply bind_ok in Hr. destruct Hr as [x [Hx Hr]]. injection Hr as <-.
+    split; [|split]; cbn [td_types td_domain td_message]; assumption. }
+  destruct (field_is F_DOMAIN k).
+  { intros Hr. apply bind_ok in Hr. destruct Hr as [x [Hx Hr]]. injection Hr as <-.
+    split; [|split]; cbn [td_types td_domain td_message]; try assumption.
+    intros d ->. apply (dec_gmap_wf _ _ _ Hd Hx). }
+  destruct (field_is F_MESSAGE k).
+  { intros Hr. apply bind_ok in Hr. destruct Hr as [x [Hx Hr]]. injection Hr as <-.
+    split; [|split]; cbn [td_types td_domain td_message]; try assumption.
+    intros m ->. apply (dec_gmap_wf _ _ _ Hm Hx). }
+  intros Hr. injection Hr as <-. split; [|split]; assumption.
+Qed.
+
+(* the TypedData decoded from any document: type names unique, every map in domain and message has
+   unique keys (the association lists faithfully stand for Go maps) *)
+Theorem decode_typed_data_wf doc td : decode_typed_data doc = Ok td -> wf_td td.
+Proof.
+  assert (Hz : wf_td td_zero) by (split; [|split]; intros ? Hx; discriminate Hx).
+  unfold decode_typed_data, decode_typed_data_into. destruct doc; try discriminate.
+  - intros Hr. injection Hr as <-. exact Hz.
+  - intros Hr. refine (fold_bind_inv wf_td dec_td_field m _ _ td _ Hr).
+    + intros a b a' Ha Hb. apply (dec_td_field_wf _ _ _ Ha Hb).
+    + intros a Ha. injection Ha as <-. exact Hz.
+Qed.
